@@ -267,6 +267,7 @@ func c10Prop(c *sim.Case) {
 
 func TestC10(t *testing.T) {
 	r := sim.NewRun(t, "C10")
+	r.ShrinkTime = "2s" // real-time cases: a shrink attempt costs seconds
 	defer r.Finish()
 	r.Rule = "store tier: (absolute, idle) in {0,1,2,3,5,60,900,28800}^2 x {memory, Redis on miniredis} on a virtual clock, 0-27 other sessions created just before the judged one, sweeps (RemoveAllExpired) and operations on other sessions at drawn points; histories of writes (tokens, login state), reads (either kind; each read is also a use) and clock advances drawn 1.5 s / 0.5 s before and after the next limit, to either side of the instant at which the absolute limit becomes the nearer one, at random sub-second and multi-second offsets. Oracle: interval model of creation time and last use with 1 s tolerance (must not be honoured beyond a limit; must be honoured more than 1 s inside both; otherwise either). System tier: the assembled service (server.ExtAuthZFilter.Check with the real session-store factory wiring and real clock). Non-trivial = the history observed the session both alive and expired and (if an absolute limit is set) used it between creation and that limit; distinct = distinct (store, timeouts, trace)."
 	r.Assumptions = []string{"one second of timestamp granularity is tolerated on either side of a limit", "miniredis follows the virtual clock through SetTime + FastForward"}
